@@ -45,11 +45,18 @@ fn exec_line(line: &str) -> String {
     let beta = get_i(&kv, "beta");
     let bias = get_u(&kv, "bias");
     let la = get_u(&kv, "la");
+    let zb = get_u(&kv, "zb");
     let k = nblocks * bs;
+    // whole LHS quantisation blocks forced to zero: 0 none, 1 first, 2 middle, 3 last, 4 all
+    let zero_block = move |r: usize| -> bool {
+        let blk = if bs == 0 { 0 } else { r / bs };
+        match zb { 0 => false, 1 => blk == 0, 2 => blk == nblocks / 2, 3 => blk + 1 == nblocks, _ => true }
+    };
+    let lhs_val = move |i: usize, j: usize| -> f32 { if zero_block(j) { 0.0 } else { gen_val(sl, i as u64, j as u64) as f32 } };
 
     let quant = NdTensor::<u8, 3>::from_fn([cols, nblocks, bs / 2], |[c, b, i]| gbyte(sq, c as u64, (b * (bs / 2) + i) as u64));
     let scales = NdTensor::<f32, 2>::from_fn([cols, nblocks], |[c, b]| gscale4(ss, c as u64, b as u64) as f32 / 4.0);
-    let lhs = make_strided(la, rows, k, 777.0f32, |i, j| gen_val(sl, i as u64, j as u64) as f32);
+    let lhs = make_strided(la, rows, k, 777.0f32, |i, j| lhs_val(i, j));
 
     let mut bp = hk::BlockParams { mr: 1, nr: 1, mc: 1, nc: 1, kc: 1 };
     let out: Option<Vec<i64>> = no_panic(std::panic::AssertUnwindSafe(|| -> Option<Vec<i64>> {
@@ -66,7 +73,7 @@ fn exec_line(line: &str) -> String {
                 GemmOptions { alpha: alpha as f32, beta: beta as f32, bias: bv, a_quant: None, b_quant: None }).ok()?;
             Some(out.iter().map(|x| f32_to_int(x * 4.0)).collect())
         } else {
-            let lhs_c = NdTensor::<f32, 3>::from_fn([1, rows, k], |[_, i, j]| gen_val(sl, i as u64, j as u64) as f32);
+            let lhs_c = NdTensor::<f32, 3>::from_fn([1, rows, k], |[_, i, j]| lhs_val(i, j));
             let g = BlockQuantizedGemm::new().with_compute(if mode == 1 { ComputeMode::Int8 } else { ComputeMode::Float });
             let mut out = vec![MaybeUninit::new(f32::NAN); rows * cols];
             let res = g.batched_gemm_uninit(&mut out, lhs_c.view(), mat).ok()?;
@@ -84,13 +91,14 @@ fn exec_line(line: &str) -> String {
         None => "None".into(),
     };
     let term = format!(
-        "{{| q_mode := {}; q_epv := {}; q_P := {{| p_mr := {}; p_nr := {}; p_mc := {}; p_nc := {}; p_kc := {} |}}; q_rows := {}; q_cols := {}; q_nblocks := {}; q_bs := {}; q_alpha := {}; q_beta := {}; q_bias := {}; q_sl := {}; q_sq := {}; q_ss := {}; q_sc := {}; q_sbias := {}; q_out := {} |}}",
-        mode, epv(), bp.mr, bp.nr, bp.mc, bp.nc, bp.kc, rows, cols, nblocks, bs, coq_z(alpha), coq_z(beta), bias, sl, sq, ss, sc, sbias, outs);
+        "{{| q_mode := {}; q_epv := {}; q_P := {{| p_mr := {}; p_nr := {}; p_mc := {}; p_nc := {}; p_kc := {} |}}; q_rows := {}; q_cols := {}; q_nblocks := {}; q_bs := {}; q_alpha := {}; q_beta := {}; q_bias := {}; q_sl := {}; q_sq := {}; q_ss := {}; q_sc := {}; q_sbias := {}; q_zb := {}; q_out := {} |}}",
+        mode, epv(), bp.mr, bp.nr, bp.mc, bp.nc, bp.kc, rows, cols, nblocks, bs, coq_z(alpha), coq_z(beta), bias, sl, sq, ss, sc, sbias, zb, outs);
     let spv = (epv() / bs.max(1)).max(1);
     let tag = format!("{}{}-bs{}-{}{}", if rows * cols == 0 { "trivial-" } else { "" },
         match mode { 0 => "float".to_string(), 1 => "int8mode".to_string(), _ => format!("gemm-{}", kern) }, bs,
         if mode < 2 { format!("spv{}", spv) } else { format!("kblk{}", if bp.kc == 0 { 0 } else { k.div_ceil(bp.kc).min(3) }) },
         if mode < 2 && nblocks % spv != 0 { "-tail" } else { "" });
+    let tag = if zb > 0 && nblocks > 0 { format!("{}-zeroblk", tag) } else { tag };
     format!("{}\t{}\t{}", tag, line, term)
 }
 
@@ -109,17 +117,34 @@ fn generate(seed: u64, n: usize, tier: &str, out: &mut impl Write) {
                     rng.pick(&[1usize, 2, 15, 16, 17, 33]), nb, bs, rng.below(1000), rng.below(1000), rng.below(1000)).unwrap();
             }
         }
+        // LHS rows with whole quantisation blocks equal to zero (first / middle / last / all)
+        for &bs in &bss {
+            for zb in 1..=4usize {
+                let nb = if bs >= 128 { rng.pick(&[1usize, 2, 3]) } else { rng.pick(&[1usize, 3, 8, 9]) };
+                writeln!(out, "Q mode={} rows=1 cols={} nb={} bs={} sl={} sq={} ss={} la=0 zb={}", mode,
+                    rng.pick(&[1usize, 3, 17]), nb, bs, rng.below(1000), rng.below(1000), rng.below(1000), zb).unwrap();
+            }
+        }
         for _ in 0..n / 2 {
             let bs = rng.pick(&bss);
             let nb = rng.below((1024 / bs) as u64 + 1) as usize;
-            writeln!(out, "Q mode={} rows={} cols={} nb={} bs={} sl={} sq={} ss={} la=0", mode, if mode == 0 { rng.below(4) } else { 1 },
-                rng.below(40), nb, bs, rng.below(1000), rng.below(1000), rng.below(1000)).unwrap();
+            writeln!(out, "Q mode={} rows={} cols={} nb={} bs={} sl={} sq={} ss={} la=0 zb={}", mode, if mode == 0 { rng.below(4) } else { 1 },
+                rng.below(40), nb, bs, rng.below(1000), rng.below(1000), rng.below(1000), if rng.chance(1, 3) { 1 + rng.below(4) } else { 0 }).unwrap();
         }
     }
     // GEMM path for every f32 kernel
     for kern in hk::f32_kernel_names() {
         let g = hk::f32_executor(kern).unwrap();
         let bp = hk::block_params(&g, 300, 300, 300, None);
+        // quantisation blocks as large as / larger than the default depth block (256): K = 1-2 blocks,
+        // a few LHS rows (the multi-row route packs whole blocks per depth block), few columns
+        for &bs in &[256usize, 512, 1024] {
+            for nb in 1..=2usize {
+                writeln!(out, "Q mode=2 kern={} rows={} cols={} nb={} bs={} alpha={} beta={} bias={} sl={} sq={} ss={} sc={} sbias={} la={} zb={}",
+                    kern, rng.pick(&[2usize, 3, bp.mr + 1]), rng.pick(&[1usize, 2, 5]), nb, bs, rng.pick(&ab), rng.pick(&ab), rng.below(3),
+                    rng.below(1000), rng.below(1000), rng.below(1000), rng.below(1000), rng.below(1000), rng.below(5), if nb == 2 { rng.below(4) } else { 0 }).unwrap();
+            }
+        }
         for _ in 0..n {
             let bs = rng.pick(&bss);
             let nb = if rng.chance(1, 4) { (rng.pick(&[256usize, 512, 768]) / bs).max(1) } else { rng.below(5) as usize };
